@@ -84,6 +84,36 @@ def gen_cases(ctx, ngroups):
         for _ in range(len(ents) + 2):
             toks += ["n", "x1"]
         out.append(Case(A.rdr_op(kind, pol, toks, d), tags={"tree", "pol=" + pol}, note=("t", 100000 + g)))
+    # every presented entry gets a treatment — also the directories the reader re-presents on its own (reads and checks on them
+    # must deliver nothing and must not disturb the member that is already pending behind them)
+    for g in range(ngroups // 2):
+        ents = T.rand_tree(r, maxdepth=3, nfiles=7, dangerous=0.0, safe_links=0.0, levels=(r.choice([0, 1, 2]),))
+        d = T.encode_archive(ents)
+        kind = r.choice(A.KINDS)
+        pol = r.choice(["eod", "eod", "eof"])
+        # presentation order under the policy: a directory is re-presented at the first later entry outside it (eod) / at the end (eof)
+        order, stack = [], []
+        for e in ents:
+            if pol == "eod":
+                while stack and not e.path.startswith(stack[-1].path):
+                    order.append(("fake", stack.pop()))
+            order.append(("real", e))
+            if e.kind == "dir":
+                stack.append(e)
+        while stack:
+            order.append(("fake", stack.pop()))
+        for v in range(4):
+            toks = []
+            for what, e in order:
+                toks.append("n")
+                if what == "real" and e.kind == "dir":
+                    toks.append("x1")
+                elif what == "fake":
+                    toks += r.choice([[], ["r64"], ["r1", "r100000"], ["c"], ["x1"], ["r64", "x1"]])
+                else:
+                    toks += r.choice([[], ["r100000"], ["r7", "r100000"], ["c"], ["x1"], ["r3"]])
+            toks += ["n", "n"]
+            out.append(Case(A.rdr_op(kind, pol, toks, d), tags={"tree-every-entry", "pol=" + pol}, note=("g", 200000 + g)))
     return out
 
 
